@@ -57,7 +57,7 @@ def _drive(ctx, binp, seqs, tag, workers=8, timeout=3000):
 def run(ctx):
     quick = ctx.quick()
     rnd = random.Random(ctx.seed)
-    fixed = ctx.tlc("reqcrash", "ReqCrash", "MC_fixed.cfg" if quick else "MC_fixed_large.cfg", coverage=quick, timeout=1500)
+    fixed = ctx.tlc("reqcrash", "ReqCrash", "MC_fixed.cfg" if quick else "MC_fixed_large.cfg", coverage=quick, timeout=1500 if quick else 3600)
     if quick:
         for a in ("Send", "Flush"):
             if fixed.coverage.get(a, (0, 0))[0] == 0:
